@@ -136,6 +136,22 @@ CHECKS.append({
             "oracle on rendered images); decimal formatting modelled by Coq's string_of_uint.",
 })
 
+CHECKS.append({
+    "property_id": "C05",
+    "design_ref": "DESIGN.md 5 (C05)",
+    "technique": "Coq proof over the data flow of build_model, the renderer's naming glue, parameter tables, sky, prior helpers and loss models regenerated "
+                 "by the ast translator (string lemmas for every suffix; list induction for the site set; ring for the density) + vm_compute/interval "
+                 "correspondence with numpyro traces of real FitSingle/FitMulti models",
+    "text": "Six theorems (Props/C05.v): for EVERY suffix the renderer recovers each prior parameter's own name; multi-source keys equal the prior's keys "
+            "and are injective; the latent sites are exactly prior parameters + sky parameters + the loss's nuisances; the joint log-density is priors + "
+            "per-pixel loss term evaluated at render+sky with sigma=rms over good pixels; the loss receives (obs, data, rms, mask); re-parameterisation "
+            "shifts the density by a constant.  On each run the site list, per-pixel likelihood and unit-scale latent log-probs of real models over "
+            "profile x sky x loss x renderer x suffix are proved equal to the model's inside Coq.",
+    "note": "Trusted: Coq kernel, Interval, Reals axioms; seven translator units; numpyro log_density = sum of sample sites and TransformReparam naming "
+            "(checked numerically each run); the renderer is an abstract function of the exposed parameters here (C08 carries its algebra); the image "
+            "identity model = render(exposed)+sky is an implementation-side oracle at 5e-6.",
+})
+
 _PENDING = "check not built yet in this session (build order in DESIGN.md section 9); will be claimed once its Coq model, theorems and tie exist"
 NOT_APPLICABLE = [
     {"property_id": "C%02d" % i, "reason": _PENDING}
